@@ -95,6 +95,8 @@ def variants(f):
         out.append({'period': params['period'].default + 1})
     if 'source_type' in params and params['source_type'].default == 'close':
         out.append({'source_type': 'hl2'})
+    if 'direction' in params and params['direction'].default == 'long':
+        out.append({'direction': 'short'})
     return out
 
 
